@@ -227,6 +227,9 @@ class C05(Property):
     id = "C05"
     title = "validate() follows the documented two-phase, all-elements algorithm"
     proof_module = "Proofs.C05"
+    level_text = 'Lean 4 refinement theorem `validate_refines`: the queue algorithm of Element.validate equals the documented declarative semantics (level order over the tree pruned at SkipAll/SkipAllFalse; per-element verdict; exact call log; return value) for every tree and every outcome assignment; corollaries for each clause. Re-validation of non-fresh trees and the real validate_element are tied by correspondence (exhaustive 2-node scope + random trees, 1-3 re-validations).'
+    level_note = 'Trusted: Lean kernel + 3 standard axioms; hand-written model Flatland/C05.lean; validators are black boxes returning one of the six outcomes; trees without shared nodes; blinker signals not modelled; validate(recurse=False) not covered.'
+    technique = 'Lean 4 proof (refinement of a queue loop to a declarative spec); differential correspondence incl. exhaustive small scope; Python oracle'
     theorems = [
         "Flatland.C05.Proofs.validate_refines",
         "Flatland.C05.Proofs.descend_visits",
